@@ -24,7 +24,7 @@ import (
 
 func TestMain(m *testing.M) {
 	core.Init("family")
-	if !injected && os.Getenv("VERIF_PROP") != "" {
+	if !injected && os.Getenv("VERIF_PROP") != "" && os.Getenv("VERIF_COARSE") == "" {
 		fmt.Println("family engine built without yield injection: refusing to give a verdict")
 		os.Exit(3)
 	}
@@ -64,6 +64,7 @@ type trace struct {
 	Policy   gen.PolicyDesc   `json:"policy"`
 	Steps    int64            `json:"steps"`
 	Switches int64            `json:"switches"`
+	Giant    string           `json:"giant_base,omitempty"`
 	Member   string           `json:"member,omitempty"`
 	Detail   string           `json:"detail,omitempty"`
 	At       string           `json:"at,omitempty"`
@@ -91,14 +92,21 @@ func clip(s string) string {
 }
 
 func run(t *rapid.T, prop string) {
-	b := fam.Bounds{MaxRows: 16, MaxCols: 4, MaxMembers: 24, HugeOdds: 800}
+	b := fam.Bounds{MaxRows: 16, MaxCols: 4, MaxMembers: 24, HugeOdds: 800, GiantOdds: uint64(core.EnvInt("VERIF_GIANT_ODDS", 3000))}
 	maxOps, maxBuild := 4, 5
 	if core.Thorough() {
-		b = fam.Bounds{MaxRows: 40, MaxCols: 5, MaxMembers: 40, HugeOdds: 500}
+		b = fam.Bounds{MaxRows: 40, MaxCols: 5, MaxMembers: 40, HugeOdds: 500, GiantOdds: uint64(core.EnvInt("VERIF_GIANT_ODDS", 2000))}
 		maxOps, maxBuild = 7, 8
 	}
 	w := fam.NewWorld(t, b)
 	tr := &trace{Bases: w.Specs}
+	if w.Giant {
+		// a giant world: few members, short programs, few whole-family checks
+		core.Probe("giant-world")
+		b.MaxMembers, maxOps, maxBuild = 8, 2, 2
+		tr.Bases = nil
+		tr.Giant = fmt.Sprintf("gen.DrawGiantFrame: %d rows (cells derived from the drawn key)", w.Specs[0].NRows)
+	}
 	for _, m := range w.Members {
 		if m.F.Err != nil {
 			t.Fatalf("harness: base frame rejected by New: %v", m.F.Err)
@@ -193,6 +201,7 @@ func run(t *rapid.T, prop string) {
 		s := core.NewSched(core.Sequential{})
 		setYieldHook(s.Yield)
 		setLockBlocker(s.Block)
+		setSpawner(s.Spawn)
 		fam.Atomic = s.Atomic
 		for c := 0; c < nclients; c++ {
 			c := c
@@ -208,6 +217,7 @@ func run(t *rapid.T, prop string) {
 		est = s.Steps
 		w.Members = saved
 		setYieldHook(nil)
+		setSpawner(nil)
 		fam.Atomic = func(f func()) { f() }
 	}
 	depth := 3
@@ -228,9 +238,11 @@ func run(t *rapid.T, prop string) {
 	// harness code never calls into qframe while a parked task holds a lock
 	// (see locksHeld below), and Sched.Block panics outside a task
 	setLockBlocker(s.Block)
+	setSpawner(s.Spawn)
 	fam.Atomic = s.Atomic
 	defer func() {
 		setYieldHook(nil)
+		setSpawner(nil)
 		fam.Atomic = func(f func()) { f() }
 	}()
 	var records []*opRecord
@@ -242,6 +254,9 @@ func run(t *rapid.T, prop string) {
 		var task *core.Task
 		task = s.Go(fmt.Sprintf("client%d", c), func() {
 			for _, d := range tr.Programs[c] {
+				if !injected {
+					s.Yield(-1) // operation granularity: the only scheduling points there are
+				}
 				var ex *fam.Exec
 				s.Atomic(func() { ex = fam.Resolve(w, d, c) })
 				rec := &opRecord{Client: c, Desc: ex.Desc, ex: ex}
@@ -273,6 +288,9 @@ func run(t *rapid.T, prop string) {
 			return // nothing in flight, or a parked task is inside a critical section
 		}
 		inOpSites[siteName(tk.Site)]++
+		if w.Giant && (midChecks >= 6 || (desc.Kind != "pct" && sampleKey.Intn(16) != 0)) {
+			return // observing tens of thousands of rows: a handful of times per run
+		}
 		if desc.Kind == "pct" || sampleKey.Intn(8) == 0 {
 			midChecks++
 			if !checkI1(fmt.Sprintf("at scheduler step %d, while %d client(s) were inside an operation (last yield at %s)", s.Steps, busy, siteName(tk.Site))) {
@@ -303,6 +321,7 @@ func run(t *rapid.T, prop string) {
 		// does the very same operation need when it runs alone?
 		tasks := s.Tasks()
 		setYieldHook(nil)
+		setSpawner(nil)
 		for c, ex := range inflight {
 			if ex == nil {
 				continue
@@ -312,10 +331,12 @@ func run(t *rapid.T, prop string) {
 			alone.MaxSteps = stepCap / 20
 			setYieldHook(alone.Yield)
 			setLockBlocker(alone.Block)
+			setSpawner(alone.Spawn)
 			fam.Atomic = alone.Atomic
 			alone.Go("alone", func() { safeRun(ex) })
 			finished := alone.Run()
 			setYieldHook(nil)
+			setSpawner(nil)
 			fam.Atomic = func(f func()) { f() }
 			if finished && consumed > 20*alone.Steps+10000 {
 				core.Violation(t, "C11:liveness:no-termination", fmt.Sprintf("%s (client %d) needs %d scheduling points when run alone but had consumed %d without finishing under this schedule", ex.Desc, c, alone.Steps, consumed), tr)
@@ -352,6 +373,7 @@ func run(t *rapid.T, prop string) {
 		return
 	}
 	core.ProbeN("mid-operation-family-checks", midChecks)
+	core.ProbeN("library-goroutines-run-as-tasks", s.Spawned)
 	core.Event(s.Digest(), len(w.Members), len(records))
 
 	// probes and non-triviality
@@ -398,6 +420,7 @@ func run(t *rapid.T, prop string) {
 		}
 	}
 	setYieldHook(nil)
+	setSpawner(nil)
 	fam.Atomic = func(f func()) { f() }
 	for _, r := range records {
 		alone := safeRun(r.ex)
